@@ -2,8 +2,8 @@
 
 KERNEL_TB = [
     "Lean 4.33.0 kernel; axioms per theorem printed by Audit/<id>.lean and required to be a subset of {propext, Classical.choice, Quot.sound}",
-    "hand-written Lean model (lean/Model), tied to /repo by the differential harness on every run",
-    "Go harness (harness/), model driver (lean/Driver), this check script",
+    "hand-written Lean model (lean/Model), tied to /repo on every run by (1) the differential harness (correspondence streams), (2) facts regenerated from the Go AST and closed by decide (lean/Generated/Facts.lean), (3) Go->Lean translation of the algorithmic core (lean/Generated/Sorting.lean, Gen*.lean) proved equal to the model (lean/Props/C19Gen.lean, Gen*.lean)",
+    "the extractor and the two translators (harness/cmd/extract; conventions in DESIGN.md section 10), the Go harness (harness/), the model driver (lean/Driver), this check script",
 ]
 
 CORE_Q = ["-n", "250", "-ops", "40"]
